@@ -406,11 +406,12 @@ class LogicalLinkController(object):
         finally:
             # shutdown local services, also if the device failed again
             # (threads that wait on a socket must be woken in any case)
-            for i in range(63, -1, -1):
-                if not self.sap[i] is None:
-                    log.debug("closing service access point %d" % i)
-                    self.sap[i].shutdown()
-                    self.sap[i] = None
+            with self.lock:
+                for i in range(63, -1, -1):
+                    if not self.sap[i] is None:
+                        log.debug("closing service access point %d" % i)
+                        self.sap[i].shutdown()
+                        self.sap[i] = None
             self.link.SHUTDOWN = True
 
     def exchange(self, send_pdu, timeout):
@@ -732,16 +733,22 @@ class LogicalLinkController(object):
             raise err.Error(errno.ENOTSOCK)
         if socket.addr is not None:
             raise err.Error(errno.EINVAL)
-        if addr_or_name is None:
-            self._bind_by_none(socket)
-        elif isinstance(addr_or_name, int):
-            self._bind_by_addr(socket, addr_or_name)
-        elif isinstance(addr_or_name, (bytes, bytearray)):
-            self._bind_by_name(socket, bytes(addr_or_name))
-        elif isinstance(addr_or_name, str):
-            self._bind_by_name(socket, addr_or_name.encode('latin'))
-        else:
-            raise err.Error(errno.EFAULT)
+        with self.lock:
+            if self.sap[1] is None:
+                # The service discovery access point is only removed by
+                # terminate(). A socket bound after that would never be
+                # shut down and its blocking calls could never return.
+                raise err.Error(errno.ESHUTDOWN)
+            if addr_or_name is None:
+                self._bind_by_none(socket)
+            elif isinstance(addr_or_name, int):
+                self._bind_by_addr(socket, addr_or_name)
+            elif isinstance(addr_or_name, (bytes, bytearray)):
+                self._bind_by_name(socket, bytes(addr_or_name))
+            elif isinstance(addr_or_name, str):
+                self._bind_by_name(socket, addr_or_name.encode('latin'))
+            else:
+                raise err.Error(errno.EFAULT)
 
     def _bind_by_none(self, socket):
         with self.lock:
